@@ -49,15 +49,15 @@ COMMON_K_ASSUME = [
 ]
 
 BLOOM_CFGS = [("m7k3", "quick"), ("m1k1", "quick"), ("m64k2", "quick"), ("m130k2", "thorough")]
-CMS_CFGS = [("w3d2_u8", "quick"), ("w2d3_u8", "quick"), ("w1d1_u8", "quick"), ("w2d3_u64", "thorough"), ("w3d2_u16", "thorough"),
+CMS_CFGS = [("w3d2_u8", "quick"), ("w2d3_u8", "quick"), ("w1d1_u8", "quick"), ("w5d2_u8", "quick"), ("w3d1_u8", "quick"), ("w2d3_u64", "thorough"), ("w3d2_u16", "thorough"),
             ("w2d3_u32", "thorough"), ("w3d2_usize", "thorough"), ("w3d2_u64", "thorough")]
 
 # --------------------------------------------------------------------------- C02
 p = prop("C02",
          functions=["CountMinSketch::{with_params_and_hasher,add,add_n,query_point,merge,clear,is_empty}", "HashIterBuilder::{new,iter_for,setup_f,h_i}", "HashIter::next"],
-         bounds={"quick": "(w,d) in {(3,2),(2,3),(1,1)}, counter u8, all cell values, all hash residues (h1,h2,f symbolic bytes), one step from any valid state",
+         bounds={"quick": "(w,d) in {(3,2),(2,3),(1,1),(5,2),(3,1)}, counter u8, all cell values, all hash residues (h1,h2,f symbolic bytes), one step from any valid state",
                  "thorough": "adds u16,u32,u64,usize counters at (3,2)/(2,3) with full-width symbolic cells"},
-         outside=["tables larger than 3x2 / 2x3", "counter overflow (checked_add panics) is assumed away: N+n <= C::MAX", "hash words wider than 8 bits (only h mod w is consumed)"],
+         outside=["tables larger than 5x2 / 2x3", "counter overflow (checked_add panics) is assumed away: N+n <= C::MAX", "hash words wider than 8 bits (only h mod w is consumed)"],
          assumptions=COMMON_K_ASSUME + ["inductive invariant: every row sums to the stream total N, query_point(x) >= true(x)"])
 for cfg, tier in CMS_CFGS:
     p["units"] += [
@@ -119,6 +119,7 @@ p["units"] += [
     K("h_tdigest::td_insert_step_c2b1", "quick", "TDigest: backlog length <= max_backlog_size after insert"),
     K("h_tdigest::td_insert_merges_backlog0", "quick", "TDigest: backlog 0 merges at once", mem_class_gb=10, timeout_s=2400, mem_gb=30),
     K("h_tdigest::td_insert_merges_backlog0_fuse", "quick", "TDigest: with K0 delta=1.1 the digest collapses into ONE centroid whatever the weights (smallest instance of the centroid-count bound)", mem_class_gb=10, timeout_s=2400, mem_gb=30),
+    K("h_tdigest::td_scale_fn_sees_sample_count", "quick", "TDigest: the merge asks the scale function with n = number of inserts (any positive finite weight); K2/K3 derive the cluster-size limit, hence the centroid bound, from it", "n0 <= 60000, weight in (0, 1e6]", mem_class_gb=8, timeout_s=2400),
     M("ck_insert_bs2nb2k2", "quick", "cuckoo: insert (Ok and Err paths) never changes the table length (array contract: out-of-range writes are panic paths, all infeasible)", "bs2nb2k2", model="cuckoo", op="insert", bs=2, nb=2, kicks=2, need_witness=["ok", "err"]),
     M("heap_add_step", "quick", "CMSHeap: |tracked| <= k is part of the invariant preserved by add", "K=3, k<=2", model="heap", what_m="add", kmax=2, need_witness=["ret"]),
 ]
@@ -153,6 +154,7 @@ p = prop("C16",
          assumptions=TD_ASSUME + ["aggregates are observed as raw totals over centroids+backlog through verif hooks, and through count()/sum()/mean() after the merge"])
 p["units"] += [
     K("h_tdigest::td_insert_step_c0b0", "quick", "insert_weighted into the empty digest"),
+    K("h_tdigest::td_clear_clone", "quick", "clear() on a digest with compressed centroids AND a backlog: parts, aggregates and is_empty as in a fresh digest ('since creation or clear')", mem_class_gb=8, timeout_s=2400),
     K("h_tdigest::td_insert_any_weight_c0", "quick", "insert_weighted with ANY finite weight >= 0 into the empty digest: positive weights are recorded exactly, min/max updated, not empty", "w any f64"),
     K("h_tdigest::td_insert_any_weight_c1", "quick", "same into a one-centroid digest", "w any f64"),
     K("h_tdigest::td_insert_step_c2b1", "quick", "insert_weighted, 2 centroids + 1 backlog"),
@@ -379,6 +381,7 @@ p["units"] += [
     K("h_bloom::bloom_clear_clone_m7k3", "quick", "Bloom clear/clone"), K("h_bloom::bloom_clear_clone_m64k2", "quick", "Bloom clear/clone"),
     K("h_bloom::bloom_is_empty_m7k3", "quick", "Bloom is_empty iff no bit set"),
     K("h_cms::cms_clear_clone_w3d2_u8", "quick", "CMS clear/clone/is_empty"), K("h_cms::cms_clear_clone_w2d3_u8", "quick", "CMS clear/clone"),
+    K("h_cms::cms_clear_clone_w5d2_u8", "quick", "CMS clear/clone on a wide, shallow table (w > d*d)"), K("h_cms::cms_clear_clone_w3d1_u8", "quick", "CMS clear/clone, single row"),
     K("h_hll::hll_clear_clone_b4", "quick", "HLL clear/clone/is_empty"),
     K("h_qf::qf_clear_clone_q2r2", "quick", "QF clear/clone", mem_class_gb=8, timeout_s=2400), K("h_qf::qf_fresh_q2r2", "quick", "QF new is empty"),
     K("h_cuckoo::ck_clear_clone", "quick", "cuckoo clear/clone", features=["kicks2"], mem_class_gb=10, timeout_s=1200, mem_gb=24),
@@ -494,3 +497,60 @@ for pid_ in ("C14", "C01", "C12"):
 for pid_ in ("C06", "C12", "C01"):
     PROPS[pid_]["units"].append(M("qf_translator_validation", "quick", "12 VERIF_SEED-driven concrete (member set, element) cases through the real QuotientFilter (state reached through the public API) and through the encoding started from enc(X): result, len and every slot must agree — validates the FixedBitSet / IntVector contracts AND the reference encoder",
                                   "(2,2)", model="qf", op="validate", n=12, need_witness=["cases_agree"]))
+
+
+# --------------------------------------------------------------------------- obligation scope per property
+# Several units are shared between properties (one harness states many tagged obligations about one step). A failed obligation
+# counts for a property only if it is one of THAT property's obligations; the others are recorded in the evidence as
+# `out_of_scope_failed` and decide nothing (they are decided under the property they belong to). Panics, unwinding failures,
+# solver unknowns and required witnesses always count. ("allow", unit regex, tag regex): only matching tags count;
+# ("deny", unit regex, tag regex): matching tags do not count. First matching unit rule wins.
+_REPR = r"blocks_unchanged|m_unchanged|len_unchanged|capacity_\w+|merge_len_unchanged|merge_capacity_bounded|union_blocks_unchanged"
+SCOPE = {
+    "C01": [("allow", r"bloom_union_", r"union_superset"),
+            ("allow", r"bloom_stable_", r"present_stays_present|bits_only_grow"),
+            ("deny", r"^ck_|^qf_union|qf_union_vs_enc", r"insert_ok_reports_true|insert_ok_len_plus_one|insert_err_len_unchanged|insert_err_only_when_room_exhausted|"
+             r"delete_true_iff_copy_stored|delete_len|query_is_pure|query_false_if_no_copy|invariant_n_is_nonzero_slots|union_ok_len_adds|union_err_len_unchanged|"
+             r"union_ok_len|union_other_unchanged|union_blocks_unchanged|union_ok_iff_fits")],
+    "C02": [("deny", r"cms_", _REPR + r"|merge_other_unchanged|merge_cellwise_sum|clone_\w+|orig_independent|clear_cell_zero|clear_eq_fresh|clear_is_empty|is_empty_iff_zero")],
+    "C06": [("allow", r"bloom_union_", r"union_bit_is_or|other_unchanged|union_ok"),
+            ("allow", r"cms_merge_", r"merge_cellwise_sum|merge_other_unchanged"),
+            ("deny", r"hll_merge_", r"merge_len_unchanged"),
+            ("allow", r"^ck_union", r"union_ok_\w+"),
+            ("allow", r"^qf_union|qf_union_vs_enc", r"union_ok_\w+|union_other_unchanged")],
+    "C11": [("allow", r"cms_|bloom_|hll_|reservoir_step", _REPR + r"|len_is_min_n_k|capacity_bounded"),
+            ("allow", r"td_insert_step", r"backlog_bounded"),
+            ("allow", r"td_scale_fn", r"scale_fn_\w+|backlog_bounded"),
+            ("allow", r"td_insert_merges", r"\w*merged_at_once|total_fusion_at_delta_1_1|merge_output_not_longer|merge_empties_backlog"),
+            ("allow", r"ck_clear_clone|qf_clear_clone", r"blocks_unchanged|clear_blocks|table_len_is_4|clear_cfg\w*"),
+            ("allow", r"^ck_insert", r"$^")],
+    "C12": [("allow", r"^ck_insert", r"insert_err_len_unchanged|insert_err_class_counts_unchanged"),
+            ("allow", r"^ck_union", r"union_err_\w+"),
+            ("allow", r"^qf_union|qf_union_vs_enc", r"union_err_\w+|union_other_unchanged"),
+            ("allow", r"qf_insert_vs_enc", r"insert_err_\w+")],
+    "C13": [("deny", r"qf_", _REPR)],
+    "C14": [("deny", r"^ck_|h_cuckoo", _REPR)],
+    "C16": [("allow", r"td_clear_clone", r"clear_\w+"),
+            ("deny", r"td_", r"backlog_bounded|\w*merged_at_once|total_fusion_at_delta_1_1|merge_output_not_longer")],
+    "C17": [("deny", r"hll_", r"$^")],
+    "C18": [("deny", r"reservoir_step", r"capacity_\w+")],
+    "C19": [("allow", r"cms_clear_clone|qf_clear_clone|ck_clear_clone", r"clone_\w+|orig_independent|clear_\w+|is_empty\w*"),
+            ("allow", r"td_insert_step_c0b0", r"is_empty_iff_no_parts|not_empty_after_insert|zero_weight_changes_nothing")],
+}
+ALWAYS_IN_SCOPE = ("panic:", "UNKNOWN:", "MODEL", "unsat_cover:")
+
+
+def in_scope(pid, unit, tag):
+    import re
+    if tag.startswith(ALWAYS_IN_SCOPE) or "never_panics" in tag:
+        return True
+    for kind, ure, tre in SCOPE.get(pid, ()):
+        if re.search(ure, unit):
+            hit = re.fullmatch(tre, tag) is not None
+            return hit if kind == "allow" else not hit
+    return True
+
+
+def split_scope(pid, unit, tags):
+    ins = [t for t in tags if in_scope(pid, unit, t)]
+    return ins, [t for t in tags if t not in ins]
